@@ -581,6 +581,8 @@ def main(argv):
     part_formatters(c, drv, kconst)
     part_tools(c, os.path.dirname(repo_bin("x", SAN)), os.path.dirname(hx_bin("x")))
     part_valgrind(c, os.path.dirname(repo_bin("x")), os.path.dirname(hx_bin("x")))
+    if c.tier == "thorough":
+        coqchk(c)
     shutil.rmtree(SCRATCH, ignore_errors=True)
     if os.environ.get("VERIF_DEBUG"):
         for what, obj, found in c.violations:
